@@ -234,6 +234,32 @@ func c08Judge(seed *c08Seed, doc []byte) (sig string, reached bool, accepted boo
 		}
 		return l.Verify(keysFor(n), seed.ctx, seed.nonce, seed.issig, nil)
 	}})
+	// the same objects under well-formed keys with fewer bases (a verifier trying an issuer's keys in
+	// turn), after they were verified under the right ones: whatever was derived before, the indices
+	// must be checked against the key at hand. Only "returns" is demanded of this call.
+	calls = append(calls, call{"ProofList.Verify-under-keys-with-one-base-after-the-right-keys", func() bool {
+		l := fresh()
+		l.Verify(keysFor(n), seed.ctx, seed.nonce, seed.issig, nil)
+		short := make([]*gabikeys.PublicKey, n)
+		for i, k := range keysFor(n) {
+			c := *k
+			c.R = append([]*big.Int{}, k.R[:1]...)
+			short[i] = &c
+		}
+		l.Verify(short, seed.ctx, seed.nonce, seed.issig, nil)
+		for i, p := range l {
+			if i >= n {
+				break
+			}
+			switch p := p.(type) {
+			case *ProofD:
+				p.Verify(short[i], seed.ctx, seed.nonce, seed.issig)
+			case *ProofU:
+				p.Verify(short[i], seed.ctx, seed.nonce)
+			}
+		}
+		return false
+	}})
 	if n >= 1 {
 		calls = append(calls, call{"ProofList.Verify-one-key-fewer", func() bool {
 			return fresh().Verify(keysFor(n-1), seed.ctx, seed.nonce, seed.issig, nil)
